@@ -52,6 +52,7 @@ type c16World struct {
 	delta       bool // enable_delta (needs auto_rebuild)
 	reimports   int  // how often issuer i2 was deleted and imported again (new issuer id each time)
 	colliders   int  // imported foreign CAs whose own serial equals that of a leaf issued here
+	keyless     *c16Cert // a subordinate CA certificate signed by i2 and imported WITHOUT its key
 	deltaRotatedSinceRevoke bool
 	rotatedSinceRevoke bool
 	lastCRLNum  map[string]*big.Int
@@ -300,7 +301,11 @@ func (w *c16World) check() (string, string) {
 				}
 			}
 		}
-		for _, c := range w.certs {
+		crlCerts := w.certs
+		if w.keyless != nil {
+			crlCerts = append(append([]*c16Cert{}, w.certs...), w.keyless)
+		}
+		for _, c := range crlCerts {
 			if c.issuer != n || !c.revoked {
 				continue
 			}
@@ -316,6 +321,8 @@ func (w *c16World) check() (string, string) {
 			}
 		}
 	}
+	// (the certificate status API only knows certificates the mount stores; the subordinate CA
+	// signed outside of the mount is judged on its issuer's CRL only)
 	for _, c := range w.certs {
 		rev, err := w.certStatusRevoked(c)
 		if err != nil {
@@ -349,7 +356,7 @@ type c16Op struct {
 func (o c16Op) String() string { return fmt.Sprintf("%s(%d)", o.Kind, o.Arg) }
 
 func c16Alphabet(ncerts int) []c16Op {
-	out := []c16Op{{"issue", 1}, {"issue", 2}, {"rotate", 0}, {"tidy", 0}, {"auto-rebuild", 1}, {"auto-rebuild", 0}, {"delete-issuer2", 0}, {"restart", 0}, {"reimport-issuer2", 0}, {"delta", 1}, {"delta", 0}, {"rotate-delta", 0}, {"import-colliding-ca", 0}}
+	out := []c16Op{{"issue", 1}, {"issue", 2}, {"rotate", 0}, {"tidy", 0}, {"auto-rebuild", 1}, {"auto-rebuild", 0}, {"delete-issuer2", 0}, {"restart", 0}, {"reimport-issuer2", 0}, {"delta", 1}, {"delta", 0}, {"rotate-delta", 0}, {"import-colliding-ca", 0}, {"import-keyless-sub", 0}, {"revoke-keyless-sub", 0}}
 	for i := 0; i < ncerts; i++ {
 		out = append(out, c16Op{"revoke", i})
 	}
@@ -501,6 +508,56 @@ func (w *c16World) apply(t *testing.T, op c16Op) (string, string) {
 			return "rotate-failed", txt
 		}
 		w.rotatedSinceRevoke = true
+	case "import-keyless-sub":
+		// a subordinate CA certificate signed by issuer i2 (whose key the harness holds) is
+		// imported as a further issuer WITHOUT its private key (the key lives elsewhere)
+		if w.keyless != nil || w.issuerGone["i2"] {
+			break
+		}
+		certPEM, kc, kerr := c16KeylessSub(w.issuers["i2"])
+		if kerr != nil {
+			t.Fatalf("harness: %v", kerr)
+		}
+		resp, err := w.s.Req(w.s.Root, logical.UpdateOperation, "pki/issuers/import/cert", map[string]interface{}{"pem_bundle": certPEM})
+		if !OK(resp, err) || resp == nil {
+			return "import-issuer-failed", "importing a certificate-only subordinate issuer: " + ErrText(resp, err)
+		}
+		var id string
+		switch v := resp.Data["imported_issuers"].(type) {
+		case []string:
+			if len(v) > 0 {
+				id = v[0]
+			}
+		case []interface{}:
+			if len(v) > 0 {
+				id = fmt.Sprint(v[0])
+			}
+		}
+		if id == "" {
+			t.Fatalf("harness: import reported no new issuer: %v", resp.Data)
+		}
+		if r2, e2 := w.s.Req(w.s.Root, logical.UpdateOperation, "pki/issuer/"+id, map[string]interface{}{"issuer_name": "ksub"}); !OK(r2, e2) {
+			return "rename-issuer-failed", ErrText(r2, e2)
+		}
+		w.keyless = kc
+	case "revoke-keyless-sub":
+		// the subordinate CA itself is revoked (issuer/<ref>/revoke): its serial belongs on the
+		// CRL of ITS issuer, i2
+		if w.keyless == nil {
+			break
+		}
+		resp, err := w.s.Req(w.s.Root, logical.UpdateOperation, "pki/issuer/ksub/revoke", nil)
+		if !OK(resp, err) {
+			if w.keyless.revoked {
+				break // a second revocation may be refused
+			}
+			return "revoke-failed", "issuer/ksub/revoke failed: " + ErrText(resp, err)
+		}
+		if !w.keyless.revoked {
+			w.keyless.revoked = true
+			w.rotatedSinceRevoke = false
+			w.deltaRotatedSinceRevoke = false
+		}
 	case "restart":
 		img2 := w.s.Image()
 		w.s.Close()
@@ -519,7 +576,54 @@ func (w *c16World) canon() string {
 		parts = append(parts, fmt.Sprintf("%s:%v", c.issuer, c.revoked))
 	}
 	sort.Strings(parts)
-	return fmt.Sprintf("%v auto=%v rot=%v gone=%v delta=%v drot=%v reimports=%d", parts, w.autoRebuild, w.rotatedSinceRevoke, w.issuerGone["i2"], w.delta, w.deltaRotatedSinceRevoke, w.reimports) + fmt.Sprintf(" colliders=%d", w.colliders)
+	return fmt.Sprintf("%v auto=%v rot=%v gone=%v delta=%v drot=%v reimports=%d", parts, w.autoRebuild, w.rotatedSinceRevoke, w.issuerGone["i2"], w.delta, w.deltaRotatedSinceRevoke, w.reimports) + fmt.Sprintf(" colliders=%d", w.colliders) + fmt.Sprintf(" keyless=%v/%v", w.keyless != nil, w.keyless != nil && w.keyless.revoked)
+}
+
+// c16KeylessSub builds a subordinate CA certificate signed with issuer i2's key (from the
+// exported bundle) and returns ONLY the certificate as PEM.
+func c16KeylessSub(i2 *x509.Certificate) (string, *c16Cert, error) {
+	var parentKey *ecdsa.PrivateKey
+	rest := []byte(c16I2Bundle)
+	for {
+		var blk *pem.Block
+		blk, rest = pem.Decode(rest)
+		if blk == nil {
+			break
+		}
+		if strings.Contains(blk.Type, "PRIVATE KEY") {
+			if k, err := x509.ParseECPrivateKey(blk.Bytes); err == nil {
+				parentKey = k
+			} else if k8, err8 := x509.ParsePKCS8PrivateKey(blk.Bytes); err8 == nil {
+				parentKey, _ = k8.(*ecdsa.PrivateKey)
+			}
+		}
+	}
+	if parentKey == nil {
+		return "", nil, fmt.Errorf("no EC private key in the exported bundle of i2")
+	}
+	key, err := ecdsa.GenerateKey(elliptic.P256(), crand.Reader)
+	if err != nil {
+		return "", nil, err
+	}
+	serial, _ := crand.Int(crand.Reader, new(big.Int).Lsh(big.NewInt(1), 100))
+	tmpl := &x509.Certificate{
+		SerialNumber: serial, Subject: pkix.Name{CommonName: "subordinate ca whose key lives elsewhere"},
+		NotBefore: time.Now().Add(-time.Hour), NotAfter: time.Now().Add(240 * time.Hour),
+		IsCA: true, BasicConstraintsValid: true, KeyUsage: x509.KeyUsageCertSign | x509.KeyUsageCRLSign,
+	}
+	der, err := x509.CreateCertificate(crand.Reader, tmpl, i2, &key.PublicKey, parentKey)
+	if err != nil {
+		return "", nil, err
+	}
+	c, err := x509.ParseCertificate(der)
+	if err != nil {
+		return "", nil, err
+	}
+	var hexs []string
+	for _, b := range c.SerialNumber.Bytes() {
+		hexs = append(hexs, fmt.Sprintf("%02x", b))
+	}
+	return string(pem.EncodeToMemory(&pem.Block{Type: "CERTIFICATE", Bytes: der})), &c16Cert{serial: strings.Join(hexs, ":"), issuer: "i2", cert: c}, nil
 }
 
 // c16CollidingCA builds a self-signed EC CA certificate with the given serial number and
